@@ -257,7 +257,13 @@ func (fc *fctx) genExact(t *Ty, d int) *Expr {
 				return &Expr{Op: "coal", A: fc.genExact(tOpt(t), d-1), Bx: fc.genExact(t, d-1), Typ: t}
 			})
 			// a!
-			add(1, func() *Expr { return &Expr{Op: "force", A: fc.genExact(tOpt(t), d-1), Typ: t} })
+			add(1, func() *Expr {
+				if g.r.Chance(3, 4) { // mostly a Some
+					some := &Expr{Op: "cast", K: "as", A: fc.genExact(t, d-1), T: tOpt(t), Typ: tOpt(t)}
+					return &Expr{Op: "force", A: some, Typ: t}
+				}
+				return &Expr{Op: "force", A: fc.genExact(tOpt(t), d-1), Typ: t}
+			})
 			// index
 			add(2, func() *Expr {
 				var idx *Expr
